@@ -198,7 +198,9 @@ func (b *unboundBuilder) Parse(s string) (*Literal, error) {
 	if raw[0] != '"' {
 		return nil, fmt.Errorf("literal.Parse: text encoded literals must start with \", missing in %s", raw)
 	}
-	idx := strings.Index(raw, "\"^^type:")
+	// The value is printed verbatim, so it may itself contain the delimiter;
+	// the type name never does, hence the last occurrence is the real one.
+	idx := strings.LastIndex(raw, "\"^^type:")
 	if idx < 0 {
 		return nil, fmt.Errorf("literal.Parse: text encoded literals must have a type; missing in %s", raw)
 	}
